@@ -117,12 +117,26 @@ func VP_C10_BoundedRuns() {
 func VP_C12_UpgradeBehaviour() {
 	def := 1 + vpChoose("default", 2)
 	mode := vpModes()
+	vpArgonLen = []int{32, 8}[vpChoose("argon2id-digest-length", 2)]
 	// auxiliary data after the record must survive an upgrade
 	s, st, base, _ := vpAgent(def, mode)
+	vpArgonLen = 32
 	_ = s
 	path := filepath.Join(base, "u.user")
 	raw0, _ := os.ReadFile(path)
 	aux := vpStr("aux", 2)
+	if vpChoose("long-first-line", 2) == 1 {
+		// the same record with a zero-padded time stamp: a first line longer than any I/O buffer
+		f, _, okf := vpSplit5(string(raw0))
+		if !okf {
+			panic("setup")
+		}
+		pad := make([]byte, 4200)
+		for i := range pad {
+			pad[i] = '0'
+		}
+		raw0 = []byte(f[0] + ":" + string(pad) + f[1] + ":" + f[2] + ":" + f[3] + ":" + f[4] + "\n")
+	}
 	os.WriteFile(path, append(raw0, aux...), 0600)
 	before := vpFsSnapshot(base)
 	pw := []string{"old", "bad", ""}[vpChoose("password", 3)]
